@@ -64,6 +64,107 @@ func (o *Obligation) Script(dropQuant bool) string {
 	return b.String()
 }
 
+// expandQuant replaces every `(forall ((v (_ BitVec 64))) body)` inside an
+// assertion by the conjunction of body[v := 0..n-1]. With all string/slice
+// lengths bounded by n this is exact for the index-guarded quantifiers that
+// contracts of search functions use, and the query becomes quantifier-free:
+// used only to obtain faithful small counterexamples (never to prove).
+func expandQuant(line string, n int) (string, bool) {
+	if !strings.Contains(line, "(forall ") {
+		return line, true
+	}
+	toks := sexprTokens(line)
+	out, ok := expandToks(toks, n)
+	if !ok {
+		return line, false
+	}
+	return joinSexpr(out), true
+}
+
+func expandToks(toks []string, n int) ([]string, bool) {
+	var out []string
+	for i := 0; i < len(toks); i++ {
+		if toks[i] == "(" && i+1 < len(toks) && toks[i+1] == "forall" {
+			end := matchParen(toks, i)
+			// ( forall ( ( v ( _ BitVec 64 ) ) ) body )
+			bEnd := matchParen(toks, i+2)
+			binders := toks[i+3 : bEnd]
+			if len(binders) != 8 || binders[0] != "(" || binders[2] != "(" || binders[3] != "_" || binders[4] != "BitVec" || binders[5] != "64" {
+				return nil, false
+			}
+			v := binders[1]
+			body := toks[bEnd+1 : end]
+			if len(body) > 2 && body[0] == "(" && body[1] == "!" {
+				// ( ! body :pattern (...) ... )
+				bb := body[2:]
+				var be int
+				if bb[0] == "(" {
+					be = matchParen(bb, 0)
+				}
+				body = bb[:be+1]
+			}
+			inner, ok := expandToks(body, n)
+			if !ok {
+				return nil, false
+			}
+			out = append(out, "(", "and")
+			for k := 0; k < n; k++ {
+				lit := fmt.Sprintf("#x%016x", k)
+				for _, t := range inner {
+					if t == v {
+						out = append(out, lit)
+					} else {
+						out = append(out, t)
+					}
+				}
+			}
+			out = append(out, ")")
+			i = end
+			continue
+		}
+		out = append(out, toks[i])
+	}
+	return out, true
+}
+
+// ScriptSmall: like Script, with quantified assumptions expanded over 0..n-1
+// (those that cannot be expanded are dropped).
+func (o *Obligation) ScriptSmall(n int) string {
+	var b strings.Builder
+	b.WriteString("(set-option :produce-models true)\n(set-logic ALL)\n")
+	for _, l := range o.Ctx.lines[:o.Mark] {
+		if strings.HasPrefix(l, "(assert ") && isQuantLine(l) {
+			e, ok := expandQuant(l, n)
+			if !ok || isQuantLine(e) {
+				continue
+			}
+			l = e
+		}
+		b.WriteString(l)
+		b.WriteByte('\n')
+	}
+	g := imp(o.Guard, o.Goal)
+	if isQuantLine(g) {
+		if e, ok := expandQuant(g, n); ok {
+			g = e
+		}
+	}
+	fmt.Fprintf(&b, "(assert (not %s))\n(check-sat)\n", g)
+	var ts []string
+	seen := map[string]bool{}
+	for _, nt := range append(append([]NamedTerm{}, o.Inputs...), o.Outputs...) {
+		if strings.HasPrefix(nt.Sort, "(Array") || seen[nt.T] {
+			continue
+		}
+		seen[nt.T] = true
+		ts = append(ts, nt.T)
+	}
+	if len(ts) > 0 {
+		fmt.Fprintf(&b, "(get-value (%s))\n", strings.Join(ts, " "))
+	}
+	return b.String()
+}
+
 type solveResult struct {
 	status  string
 	solver  string
